@@ -17,6 +17,18 @@ CHECKS = {
    text="Seeded exploration of goroutine interleavings (yield points at every lock, select and channel send of the instrumented library, parked and released by a seeded controller) of 1-4 concurrent writers per side, handshake retransmissions under loss, injected datagrams provoking alerts, and Close racing writes, over 13 suite/CID/version configurations; a wire monitor independent of the library's codecs checks every emitted record header. DTLS 1.3 records are not decided by this check (encrypted sequence numbers).",
    note="Sampling evidence only. Cooperative locks admit barging, a superset of real mutex schedules. DTLS 1.3 sequence numbers are not visible on the wire and are not covered.",
    technique="deterministic simulation: seeded schedule exploration + fault injection with an independent wire monitor"),
+ "C12": dict(level="fault_enumeration", design="§5 C12",
+   text="The real sender-side fragmentation and the real reassembly buffer are joined by a one-link simulated network that reorders, duplicates and interleaves fragments; every partition x permutation x single duplicate is enumerated for short messages, longer multi-message cases are sampled (MTU 1..1500, lengths to 20000, zero-length fragments, several fragments per record). A bitmap reassembler decides after every arrival what may and must surface.",
+   note="Component-level arena: the fragment buffer and Conn.fragmentHandshake run real code, the record layer around them is the harness. Overlapping (non-partition) fragment sets are out of this property's quantifier and are exercised under C08. End-to-end reassembly under reordering is exercised by C02's small-MTU variants.",
+   technique="deterministic simulation: exhaustive permutation/duplication enumeration + seeded sampling against a reference reassembler"),
+ "C16": dict(level="exploration", design="§5 C16",
+   text="Close (1-4 concurrent callers), deadlines and cleartext fatal alerts are placed at every controller step of 13 handshake variants and 13 data-phase configurations (with and without a Write blocked in the transport), then sampled with expired deadlines, loss and yield-point schedules. Checks: every call returns, error classes, at most one and (where owed) exactly one close_notify on the wire, peer EOF, deadline timing, and no goroutine survives the bubble.",
+   note="close_notify counting is decided on the wire only for DTLS 1.2 without connection IDs (alerts are visible in record headers); fatal alerts on established sessions and the race-detector tier are not covered yet. A transport that never completes any write is outside the stated quantifier and not simulated.",
+   technique="deterministic simulation: action placement at every controller step + seeded schedule/fault sampling, synctest end-of-bubble leak detection"),
+ "C19": dict(level="fault_enumeration", design="§5 C19",
+   text="The exporting endpoint is crashed (socket severed, no Close) at every prefix (i,j) of records, i,j <= 4, on either side, for every DTLS 1.2 configuration, and restarted from the serialised bytes on a new socket at the same address; sampled runs add longer prefixes, datagrams in flight, and corruption of the bytes. The untouched peer is the judge: data flows both ways, keying material and parameters are equal, record numbers continue.",
+   note="Corrupted states are held to the statement only: rejected, or a connection whose records the peer never delivers; no panic.",
+   technique="deterministic simulation: crash-point enumeration + seeded corruption of the durable image"),
 }
 
 NOT_YET = {}
